@@ -232,7 +232,7 @@ PROPS['C16'] = dict(
                 'objects, the next one starting right after); in chunk position j every field of output object j (central wavelength, model name, flux and error of row im, per aperture) is taken '
                 'at wavelength index j+jmin of the SED just read, with no index out of range; object j is sorted to the parameter-table order and written exactly once to file number j+jmin+1, '
                 'and that name is entered in row j+jmin of the returned table (other rows untouched). That these per-iteration facts compose to "exactly one file per in-window wavelength, '
-                'independent of chunking" is the range-tiling argument of T-LOOP-EVENT. E2: EXHAUSTIVE chunk sizes x windows for n_wav <= 5/8 through real files, plus the cube slice.')
+                'independent of chunking" is the range-tiling lemma chunks_tile (proved in Lean for every chunk size, lemmas/SumLemmas.lean) on top of T-LOOP-EVENT. E2: EXHAUSTIVE chunk sizes x windows for n_wav <= 5/8 through real files, plus the cube slice.')
 
 # ---- convolve_model_dir (both package formats) under contract ------------------------------------
 CV1, CV2 = 'sedfitter.convolve.convolve._convolve_model_dir_1', 'sedfitter.convolve.convolve._convolve_model_dir_2'
